@@ -142,8 +142,6 @@ func (h *Sources) Delete(sources ...string) {
 	if len(sources) == 0 {
 		h.list = make(map[string]Source)
 		h.names = make([]string, 0)
-
-		return
 	}
 
 	for _, name := range sources {
@@ -265,6 +263,12 @@ func (h *Sources) GetLast() string {
 // The active one is used in completions, and all history-related commands.
 // If next is false, the engine cycles to the previous source.
 func (h *Sources) Cycle(next bool) {
+	// Without sources there is nothing to cycle through.
+	if len(h.names) == 0 {
+		h.sourcePos = 0
+		return
+	}
+
 	switch next {
 	case true:
 		h.sourcePos++
